@@ -441,6 +441,33 @@ fn seed_sweep(ctx: &Ctx, rep: &mut Report) {
     );
 }
 
+/// Key generation alone for many seeds, weighted towards the larger parameter sets (more coefficients per key):
+/// internal self-checks that only a rare seed trips (1e-5 per key and below).
+fn keygen_sweep(ctx: &Ctx, rep: &mut Report) {
+    let n = u64::from(ctx.n(600_000, 6_000_000));
+    let seed = ctx.seed;
+    crate::engine::run_sweep(
+        rep,
+        "keygen_sweep",
+        n,
+        false,
+        |i, st| {
+            let libr = libs()[match i % 20 { 0 => 0, 1..=3 => 1, _ => 2 }];
+            let v = gen::prg_bytes(crate::engine::hash_of(&(seed, "c13-kg", i)), "xi", 32);
+            let xi: [u8; 32] = core::array::from_fn(|k| v[k]);
+            st.eval();
+            st.nontrivial_enumerated += 1;
+            let (pk, sk) = g("keygen_from_seed", || libr.keygen_from_seed(&xi))?;
+            if i % 16 == 0 {
+                let _ = g("sk.into_bytes", || sk.to_bytes())?;
+                let _ = g("pk.into_bytes", || pk.to_bytes())?;
+            }
+            Ok(())
+        },
+        |i| json!({"index": i, "seed": seed}),
+    );
+}
+
 pub fn run(ctx: &Ctx, rep: &mut Report) {
     rep.assume("built with debug-assertions and overflow-checks on (checked profile); a panic anywhere inside a public API call is a violation; a hang is reported as inconclusive by the watchdog of ./check");
     rep.assume("a non-terminating signing loop would surface as the u16 counter overflow panic after at most 16384 iterations");
@@ -449,6 +476,7 @@ pub fn run(ctx: &Ctx, rep: &mut Report) {
     let d = directed(ctx);
     run_list(rep, "directed", &d, |c, st| check(&root, c, st));
     seed_sweep(ctx, rep);
+    keygen_sweep(ctx, rep);
     let sib = crate::props::c02::load_sib_corpus(&ctx.root);
     run_list(rep, "sample_in_ball_extremes", &sib, crate::props::c02::check_sib);
     run_generated(ctx, rep, "sequences", ctx.n(24_000, 400_000), || strategy(max_len, max_msg), |c, st| check(&root, c, st));
